@@ -762,7 +762,7 @@ impl DnsCache {
         disabled_if_index: u32,
         ip_type: IpType,
     ) {
-        for (host, records) in self.addr.iter_mut() {
+        self.addr.retain(|host, records| {
             records.retain(|record| {
                 let Some(dns_addr) = record.record.any().downcast_ref::<DnsAddress>() else {
                     return false; // invalid address record.
@@ -783,7 +783,10 @@ impl DnsCache {
                 }
                 true
             });
-        }
+
+            // Do not keep a host without addresses: an empty entry reads as "addresses known".
+            !records.is_empty()
+        });
     }
 
     /// Removes all records that were received on `intf_id`.
